@@ -471,5 +471,432 @@ theorem dup_merge :
       [(.str "BLOCKCOMMENT000000".toList, .leaf (.str "BLOCKCOMMENT000000".toList)), (.str ['a'], .leaf (.int 1)),
        (.str ['b'], .leaf (.int 2))] := by decide +kernel
 
+/-! ### on `writeText` -/
+
+/-- `_retype_values` on an `SDict` source: the data is re-typed, the tables are left alone -/
+def retypeSD (s : SD) : SD := { s with data := normEs s.data }
+
+/-- the `SDict` the writer serialises in append mode (before ordering): the file as read, merged with the re-typed source -/
+def appendSD (sd s : SD) : SD := sd.merge (.sd (retypeSD s))
+
+theorem fmtArg_sd (fl : Flavor) (order : Bool) (r : SD) :
+    fmtArg fl (if order then (Arg.sd r).order else Arg.sd r) = fmtSD fl (if order then r.order else r) := by
+  cases order <;> rfl
+
+/-- **append of an `SDict` source, the text**: the file is read (with the writer's `order` option, includes resolved
+    against `fs`), the re-typed source is merged into what was read (`appendSD`), the result is ordered if asked and
+    serialised with `fmtSD`. -/
+theorem C16_append_sd_text (ev : Str → EvalResult) (fs : FS) (target : Comps) (fl : Flavor) (order : Bool) (s : SD)
+    (c c' : Counter) (sd : SD) (hfl : flavorOfPath target = some fl)
+    (hex : (fs.get (resolveSpelled target)).isSome = true)
+    (hr : readFile ev fs { order := order } c target = .ok (.ok sd c')) :
+    writeText ev fs target ['a'] order (.sd s) c =
+      match fmtSD fl (if order then (appendSD sd s).order else appendSD sd s) with
+      | some t => .ok (t, c')
+      | none => .error .unsupported := by
+  cases hg : fs.get (resolveSpelled target) with
+  | none => rw [hg] at hex; cases hex
+  | some b =>
+    simp only [writeText, hfl, hg, hr]
+    rfl
+
+/-- if the existing file cannot be read, the append fails and nothing is written -/
+theorem C16_append_sd_read_error (ev : Str → EvalResult) (fs : FS) (target : Comps) (fl : Flavor) (order : Bool) (s : SD)
+    (c : Counter) (e : ParseErr) (hfl : flavorOfPath target = some fl)
+    (hex : (fs.get (resolveSpelled target)).isSome = true)
+    (hr : readFile ev fs { order := order } c target = .error e) :
+    writeText ev fs target ['a'] order (.sd s) c = .error e := by
+  cases hg : fs.get (resolveSpelled target) with
+  | none => rw [hg] at hex; cases hex
+  | some b =>
+    simp only [writeText, hfl, hg, hr]
+    rfl
+
+/-- **C16 / C07, append of an `SDict` source** (`DictWriter.write(s, target, mode='a')`, `SDict.dump`).  `sd` is what
+    `DictReader.read(target)` returns for the existing file; keys unique at every level on both sides.  Then the text
+    written is `fmtSD` of `appendSD sd s` (ordered if asked), and in `appendSD sd s`:
+
+    * every key path of ordinary keys that leads to a non-dict value in the file's data leads to the same value
+      (nothing in the file is lost, at any depth);
+    * every ordinary top-level key of the source that the file does not have is there, with the source's re-typed value
+      (a dict value up to comment entries `_clean` may drop inside it); dicts on both sides are merged recursively;
+    * the expression table is `Tbl.merge` of the file's table with the source's (ids of the file win); the line-comment,
+      block-comment and include tables are sub-tables of `Tbl.merge` of the file's with the source's — and equal to it
+      when `_clean` has nothing to do (`C16_append_sd_exact`). -/
+theorem C16_append_sd_keeps (ev : Str → EvalResult) (fs : FS) (target : Comps) (fl : Flavor) (order : Bool) (s : SD)
+    (c c' : Counter) (sd : SD) (hfl : flavorOfPath target = some fl)
+    (hex : (fs.get (resolveSpelled target)).isSome = true)
+    (hr : readFile ev fs { order := order } c target = .ok (.ok sd c'))
+    (hn : NodupKeysV (.dict sd.data)) (hsn : NodupKeysV (.dict (normEs s.data))) :
+    (writeText ev fs target ['a'] order (.sd s) c =
+      match fmtSD fl (if order then (appendSD sd s).order else appendSD sd s) with
+      | some t => .ok (t, c')
+      | none => .error .unsupported) ∧
+    (∀ (p : List Key) (v : Val), v.isDict = false → (∀ k ∈ p, C07.isPhKey k = false) →
+      C07.getD sd.data p = some v → (∀ k, p = [k] → selfRef sd.exprs k v = false) →
+      C07.getD (appendSD sd s).data p = some v) ∧
+    (∀ k, C07.isPhKey k = false → lookup k sd.data = none →
+      (lookup k (appendSD sd s).data).map C06fold.stripV = (lookup k (normEs s.data)).map C06fold.stripV) ∧
+    (∀ k, C07.isPhKey k = false →
+      (lookup k (appendSD sd s).data).map C06fold.stripV =
+        Option.map C06fold.stripV
+          (match lookup k sd.data, lookup k (normEs s.data) with
+          | some (.dict ad), some (.dict bd) => some (Val.dict (mergeD false sd.exprs ad bd))
+          | some av, some bv => if true && selfRef sd.exprs k av then some bv else some av
+          | some av, none => some av
+          | none, bv => bv)) ∧
+    (appendSD sd s).exprs = Tbl.merge sd.exprs s.exprs ∧
+    (appendSD sd s).lineC.Sublist (Tbl.merge sd.lineC s.lineC) ∧
+    (appendSD sd s).blockC.Sublist (Tbl.merge sd.blockC s.blockC) ∧
+    (appendSD sd s).incl.Sublist (Tbl.merge sd.incl s.incl) := by
+  refine ⟨C16_append_sd_text ev fs target fl order s c c' sd hfl hex hr, ?_, ?_, ?_,
+    merge_sd_tables_sub sd (retypeSD s)⟩
+  · intro p v hv hp hget hs
+    exact merge_sd_keeps sd (retypeSD s) hn hsn.2 p v hv hp hget hs
+  · intro k hk h
+    exact merge_sd_adds sd (retypeSD s) hn hsn.2 hsn.1 k hk h
+  · intro k hk
+    exact merge_sd_recurses sd (retypeSD s) hn hsn.2 hsn.1 k hk
+
+/-- **… exactly**, when no dict level of the merged data holds two comment entries of a kind with the same text and no
+    include entry: the data written is the merged data — the comment entries of the file stay where they are, those of
+    the source follow — and each of the four tables is `Tbl.merge` of the file's table with the source's: the tables
+    follow the merge rule of the data (existing ids win, `C07.tbl_merge_keeps` / `tbl_merge_adds`). -/
+theorem C16_append_sd_exact (sd s : SD)
+    (hl : C12W.levelFix (preMerge sd (retypeSD s)) (preMerge sd (retypeSD s)).data)
+    (hsub : C12W.subsFix (preMerge sd (retypeSD s)) (preMerge sd (retypeSD s)).data) :
+    (appendSD sd s).data = mergeD true sd.exprs sd.data (normEs s.data) ∧
+    (appendSD sd s).exprs = Tbl.merge sd.exprs s.exprs ∧
+    (appendSD sd s).lineC = Tbl.merge sd.lineC s.lineC ∧
+    (appendSD sd s).blockC = Tbl.merge sd.blockC s.blockC ∧
+    (appendSD sd s).incl = Tbl.merge sd.incl s.incl :=
+  merge_sd_tables sd (retypeSD s) hl hsub
+
+/-- consequence for one id: a comment id the file has keeps the file's text; a new id gets the source's text -/
+theorem C16_append_sd_comment_ids (sd s : SD)
+    (hl : C12W.levelFix (preMerge sd (retypeSD s)) (preMerge sd (retypeSD s)).data)
+    (hsub : C12W.subsFix (preMerge sd (retypeSD s)) (preMerge sd (retypeSD s)).data) (i : Nat) :
+    (∀ x, Tbl.get? i sd.lineC = some x → Tbl.get? i (appendSD sd s).lineC = some x) ∧
+    (Tbl.get? i sd.lineC = none → Tbl.get? i (appendSD sd s).lineC = Tbl.get? i s.lineC) ∧
+    (∀ x, Tbl.get? i sd.blockC = some x → Tbl.get? i (appendSD sd s).blockC = some x) ∧
+    (Tbl.get? i sd.blockC = none → Tbl.get? i (appendSD sd s).blockC = Tbl.get? i s.blockC) := by
+  obtain ⟨_, _, h3, h4, _⟩ := C16_append_sd_exact sd s hl hsub
+  rw [h3, h4]
+  exact ⟨fun x h => C07.tbl_merge_keeps i x _ _ h, C07.tbl_merge_adds i _ _,
+    fun x h => C07.tbl_merge_keeps i x _ _ h, C07.tbl_merge_adds i _ _⟩
+
+/-! ## 3. overwrite / new file with an `SDict` source -/
+
+/-- **C16, overwrite with an `SDict` source**: in every mode other than `a`, and in every mode when the target does
+    not exist, the text written is `fmtSD` of the re-typed source (ordered if asked) and the counter is untouched: the
+    previous content of the target is not read, and nothing else in the file system is looked at. -/
+theorem C16_overwrite_sd (ev : Str → EvalResult) (fs : FS) (target : Comps) (fl : Flavor) (mode : Str) (order : Bool)
+    (s : SD) (c : Counter) (hfl : flavorOfPath target = some fl)
+    (h : mode ≠ ['a'] ∨ fs.get (resolveSpelled target) = none) :
+    writeText ev fs target mode order (.sd s) c =
+      match fmtSD fl (if order then (retypeSD s).order else retypeSD s) with
+      | some t => .ok (t, c)
+      | none => .error .unsupported := by
+  have hfresh : (match fmtArg fl (if order then (Arg.sd s).retype.order else (Arg.sd s).retype) with
+      | some t => (Except.ok (t, c) : Except ParseErr (Str × Counter))
+      | none => .error .unsupported) =
+      match fmtSD fl (if order then (retypeSD s).order else retypeSD s) with
+      | some t => .ok (t, c)
+      | none => .error .unsupported := by
+    show (match fmtArg fl (if order then (Arg.sd (retypeSD s)).order else Arg.sd (retypeSD s)) with
+      | some t => (Except.ok (t, c) : Except ParseErr (Str × Counter))
+      | none => .error .unsupported) = _
+    rw [fmtArg_sd]
+  cases hg : fs.get (resolveSpelled target) with
+  | none => simp only [writeText, hfl, hg]; exact hfresh
+  | some b =>
+    have hm : (mode == ['a']) = false := by
+      rcases h with h | h
+      · simpa using h
+      · rw [hg] at h; cases h
+    simp only [writeText, hfl, hg, hm]
+    exact hfresh
+
+/-- independence, stated as such: two worlds, two evaluators, two counters — the same text -/
+theorem C16_overwrite_sd_indep (ev ev' : Str → EvalResult) (fs fs' : FS) (target : Comps) (fl : Flavor) (mode : Str)
+    (order : Bool) (s : SD) (c c' : Counter) (hfl : flavorOfPath target = some fl)
+    (h : mode ≠ ['a'] ∨ fs.get (resolveSpelled target) = none)
+    (h' : mode ≠ ['a'] ∨ fs'.get (resolveSpelled target) = none) :
+    (writeText ev fs target mode order (.sd s) c).map (·.1) = (writeText ev' fs' target mode order (.sd s) c').map (·.1) := by
+  rw [C16_overwrite_sd ev fs target fl mode order s c hfl h, C16_overwrite_sd ev' fs' target fl mode order s c' hfl h']
+  cases fmtSD fl (if order then (retypeSD s).order else retypeSD s) <;> rfl
+
+/-- a source without tables, native target: the default header followed by the plain text of the re-typed data -/
+theorem C16_overwrite_sd_plain (ev : Str → EvalResult) (fs : FS) (target : Comps) (mode : Str) (d : Entries) (c : Counter)
+    (hfl : flavorOfPath target = some .native) (h : mode ≠ ['a'] ∨ fs.get (resolveSpelled target) = none) :
+    writeText ev fs target mode false (.sd { data := d }) c = .ok (nativeHeader ++ fmtPlain .native (normEs d), c) := by
+  rw [C16_overwrite_sd ev fs target .native mode false { data := d } c hfl h]
+  simp only [Bool.false_eq_true, if_false]
+  have : retypeSD { data := d } = { data := normEs d } := rfl
+  rw [this, C12.fmtSD_text]
+
+/-! ## 4. `SDict(d).dump(target)` then `DictReader.read(target)`, through the API -/
+
+/-- **dump, then read.**  In a world where `target` does not exist (any other files), `SDict(d).dump(target)` completes
+    and writes the default header followed by the plain text of `normEs d`; `DictReader.read(target)` then returns the
+    data `normEs d` with the header placeholder entry in front (and the header comment in the block-comment table);
+    nothing else in the world changes but the counter. -/
+theorem C16_dump_then_read (ev : Str → EvalResult) (w : World) (target : Comps) (d : Entries)
+    (hdom : DomC01 .native (normEs d) = true) (hdoc : C01.DocKeysAbsent' d)
+    (hcnt : C02.countQuotedEs (srcOfEs .native (normEs d)) ≤ Gen.counterLimit + 1)
+    (hc : C13.ValidCounter Gen.counterLimit w.c)
+    (hfl : flavorOfPath target = some .native) (hr : resolveSpelled target = target)
+    (hnew : w.fs.get target = none) :
+    ∃ c', C13.ValidCounter Gen.counterLimit c' ∧
+      apiRun ev w [.dump { data := d } target, .read target {}] =
+        ({ fs := w.fs.set target (.native (nativeHeader ++ fmtPlain .native (normEs d))), c := c' },
+         [.done, .data (C12.hdrSD (normEs d))]) ∧
+      C01.dropPhEntries (C12.hdrSD (normEs d)).data = normEs d := by
+  have P : PathOK target := ⟨(flavor_native_paths hfl).1, (flavor_native_paths hfl).2, hr⟩
+  have hd' : C01.DocKeysAbsent' (normEs d) := by
+    intro e he
+    have hk : e.1 ∈ keys d := by rw [← C01.keys_normEs]; exact List.mem_map_of_mem (f := (·.1)) he
+    obtain ⟨e', he', hk'⟩ := List.mem_map.mp hk
+    rw [← hk']; exact hdoc e' he'
+  have hG : Good (normEs d) := ⟨hdom, C01.normEs_idem d, hd', hcnt⟩
+  have hwt := C16_overwrite_sd_plain ev w.fs target ['a'] d w.c hfl (Or.inr (by rw [hr]; exact hnew))
+  have hstep : apiStep ev w (.dump { data := d } target) =
+      ({ fs := w.fs.set target (.native (nativeHeader ++ fmtPlain .native (normEs d))), c := w.c }, .done) := by
+    have := C13api.writeTo_ok hwt
+    rw [hr] at this
+    exact this
+  obtain ⟨c', hv, hread⟩ := C01.readFile_dumped (c := w.c) ev target hdom (C01.normEs_idem d) hd' hcnt hc P.hj P.hx P.hr
+  have hget : (w.fs.set target (.native (nativeHeader ++ fmtPlain .native (normEs d)))).get target =
+      some (.native (nativeHeader ++ fmtPlain .native (normEs d))) := C13api.get_set_self _ _ _
+  have hl := readFile_local ev (w.fs.set target (.native (nativeHeader ++ fmtPlain .native (normEs d)))) {} w.c target _
+    hr hget (file_noincl _ hG (Or.inr rfl) hc)
+  have hstep2 : apiStep ev { fs := w.fs.set target (.native (nativeHeader ++ fmtPlain .native (normEs d))), c := w.c }
+      (.read target {}) =
+      ({ fs := w.fs.set target (.native (nativeHeader ++ fmtPlain .native (normEs d))), c := c' },
+        .data (C12.hdrSD (normEs d))) := by
+    simp only [apiStep, hr, hget, hl, hread]
+  refine ⟨c', hv, ?_, C01.dropPh_hdr hG.noPh⟩
+  rw [C13api.apiRun_cons, hstep, C13api.apiRun_cons]
+  simp only [hstep2]
+  rfl
+
+/-! # non-vacuity -/
+
+/-- a placeholder word and the placeholder entry `ph ↦ ph` the reader puts into the data -/
+def ph (kw : String) (i : Nat) : Str := kw.toList ++ padSix i
+def phE (kw : String) (i : Nat) : Key × Val := (.str (ph kw i), .leaf (.str (ph kw i)))
+
+def exTarget : Comps := ["w".toList, "f".toList]
+def exOther : Comps := ["w".toList, "other".toList]
+
+/-- the existing file: a line comment of its own, a leaf, a nested dict -/
+def exFile : Str := "// old\na 1;\nsub { x 1; }\n".toList
+
+/-- a world with the file and a bystander; the counter as it is after the source was read (ids 0 and 1 used) -/
+def exW (c : Counter) : World := { fs := [(exTarget, .native exFile), (exOther, .native "q 1;".toList)], c := c }
+
+/-- the source `SDict`: one line comment (id 0), one block comment (id 1) in its tables and their entries in the data;
+    `a` and `sub.x` clash with the file, `b` and `sub.y` are new; `"9"`, `"2"` are strings to be re-typed -/
+def exSrc : SD :=
+  { data := [phE "LINECOMMENT" 0, (.str ['a'], .leaf (.str ['9'])), (.str ['b'], .leaf (.str ['2'])), phE "BLOCKCOMMENT" 1,
+             (.str "sub".toList, .dict [(.str ['x'], .leaf (.int 7)), (.str ['y'], .leaf (.int 2))])],
+    lineC := [(0, "// src".toList)], blockC := [(1, "/* blk */".toList)] }
+
+/-- what `DictReader.read` returns for the file when the counter stands at 1 -/
+def exRead : SD :=
+  { data := [phE "LINECOMMENT" 2, (.str ['a'], .leaf (.int 1)), (.str "sub".toList, .dict [(.str ['x'], .leaf (.int 1))])],
+    lineC := [(2, "// old".toList)] }
+
+theorem ex_read : readFile evalInt (exW (some 1)).fs {} (some 1) exTarget = .ok (.ok exRead (some 2)) := by
+  have h : (match readFile evalInt (exW (some 1)).fs {} (some 1) exTarget with
+      | .ok (.ok sd c) => decide (sd.data = exRead.data ∧ sd.exprs = [] ∧ sd.lineC = exRead.lineC ∧ sd.blockC = [] ∧
+          sd.incl = [] ∧ c = some 2)
+      | _ => false) = true := by decide +kernel
+  cases hr : readFile evalInt (exW (some 1)).fs {} (some 1) exTarget with
+  | error e => rw [hr] at h; cases h
+  | ok r =>
+    cases r with
+    | exit1 => rw [hr] at h; cases h
+    | ok sd c =>
+      rw [hr] at h
+      simp only [decide_eq_true_eq] at h
+      obtain ⟨h1, h2, h3, h4, h5, h6⟩ := h
+      cases sd
+      simp only at h1 h2 h3 h4 h5
+      subst h1 h2 h3 h4 h5 h6
+      rfl
+
+/-- **the tables of the result, evaluated**: the file's line comment (id 2) first, the source's (id 0) after it; the
+    source's block comment; and the data: everything of the file where it was (`a` still 1, `sub.x` still 1), then the
+    source's new entries (`b` re-typed to 2, `sub.y` inside `sub`, the two comment entries) -/
+theorem ex_append_tables :
+    (appendSD exRead exSrc).lineC = [(2, "// old".toList), (0, "// src".toList)] ∧
+    (appendSD exRead exSrc).blockC = [(1, "/* blk */".toList)] ∧
+    (appendSD exRead exSrc).exprs = [] ∧ (appendSD exRead exSrc).incl = [] ∧
+    (appendSD exRead exSrc).data =
+      [phE "LINECOMMENT" 2, (.str ['a'], .leaf (.int 1)),
+       (.str "sub".toList, .dict [(.str ['x'], .leaf (.int 1)), (.str ['y'], .leaf (.int 2))]),
+       phE "LINECOMMENT" 0, (.str ['b'], .leaf (.int 2)), phE "BLOCKCOMMENT" 1] := by decide +kernel
+
+/-- … and they are `Tbl.merge` of the file's tables with the source's -/
+theorem ex_append_tables_merge :
+    (appendSD exRead exSrc).lineC = Tbl.merge exRead.lineC exSrc.lineC ∧
+    (appendSD exRead exSrc).blockC = Tbl.merge exRead.blockC exSrc.blockC := by decide +kernel
+
+theorem ex_read_nodup : NodupKeysV (.dict exRead.data) := by
+  simp only [exRead, phE, NodupKeysV, NodupKeysEs, and_true]
+  decide +kernel
+
+theorem ex_src_nodup : NodupKeysV (.dict (normEs exSrc.data)) := by
+  have : normEs exSrc.data = [phE "LINECOMMENT" 0, (.str ['a'], .leaf (.int 9)), (.str ['b'], .leaf (.int 2)),
+      phE "BLOCKCOMMENT" 1, (.str "sub".toList, .dict [(.str ['x'], .leaf (.int 7)), (.str ['y'], .leaf (.int 2))])] := by
+    decide +kernel
+  rw [this]
+  simp only [phE, NodupKeysV, NodupKeysEs, and_true]
+  decide +kernel
+
+def exAppendText : Str :=
+  C12.nativeHeaderChars ++ ("/* blk */\n// old\na                             1;\nsub\n{\n" ++
+    "    x                         1;\n    y                         2;\n}\n// src\n" ++
+    "b                             2;\n").toList
+
+def exOverwriteText : Str :=
+  C12.nativeHeaderChars ++ ("/* blk */\n// src\na                             9;\n" ++
+    "b                             2;\nsub\n{\n    x                         7;\n" ++
+    "    y                         2;\n}\n").toList
+
+theorem ir1 : intRepr 1 = ['1'] := by show intRepr (Int.ofNat 1) = _; simp [intRepr, natDigits]
+theorem ir2 : intRepr 2 = ['2'] := by show intRepr (Int.ofNat 2) = _; simp [intRepr, natDigits]
+theorem ir7 : intRepr 7 = ['7'] := by show intRepr (Int.ofNat 7) = _; simp [intRepr, natDigits]
+theorem ir9 : intRepr 9 = ['9'] := by show intRepr (Int.ofNat 9) = _; simp [intRepr, natDigits]
+
+theorem ex_raw_append : fmtEntries .native 0 (hoistPlaceholders (appendSD exRead exSrc).data) =
+    ("BLOCKCOMMENT000001            BLOCKCOMMENT000001;\nLINECOMMENT000002             LINECOMMENT000002;\n" ++
+     "a                             1;\nsub\n{\n    x                         1;\n    y                         2;\n}\n" ++
+     "LINECOMMENT000000             LINECOMMENT000000;\nb                             2;\n").toList := by
+  have h : hoistPlaceholders (appendSD exRead exSrc).data =
+      [phE "BLOCKCOMMENT" 1, phE "LINECOMMENT" 2, (.str ['a'], .leaf (.int 1)),
+       (.str "sub".toList, .dict [(.str ['x'], .leaf (.int 1)), (.str ['y'], .leaf (.int 2))]),
+       phE "LINECOMMENT" 0, (.str ['b'], .leaf (.int 2))] := by decide +kernel
+  rw [h]
+  simp only [phE, fmtEntries, fmtList, fmtItems, formatKey, keyStr, formatScalar, ir1, ir2]
+  decide +kernel
+
+theorem ex_raw_overwrite : fmtEntries .native 0 (hoistPlaceholders (retypeSD exSrc).data) =
+    ("BLOCKCOMMENT000001            BLOCKCOMMENT000001;\nLINECOMMENT000000             LINECOMMENT000000;\n" ++
+     "a                             9;\nb                             2;\nsub\n{\n" ++
+     "    x                         7;\n    y                         2;\n}\n").toList := by
+  have h : hoistPlaceholders (retypeSD exSrc).data =
+      [phE "BLOCKCOMMENT" 1, phE "LINECOMMENT" 0, (.str ['a'], .leaf (.int 9)), (.str ['b'], .leaf (.int 2)),
+       (.str "sub".toList, .dict [(.str ['x'], .leaf (.int 7)), (.str ['y'], .leaf (.int 2))])] := by decide +kernel
+  rw [h]
+  simp only [phE, fmtEntries, fmtList, fmtItems, formatKey, keyStr, formatScalar, ir2, ir7, ir9]
+  decide +kernel
+
+theorem ex_fmt_append : fmtSD .native (appendSD exRead exSrc) = some exAppendText := by
+  have hL := ex_append_tables.1
+  have hB := ex_append_tables.2.1
+  have hI := ex_append_tables.2.2.2.1
+  simp only [fmtSD, ex_raw_append, hL, hB, hI, insertBlockComments, makeDefaultBlockComment, C12.nativeHeader_eq]
+  decide +kernel
+
+theorem ex_fmt_overwrite : fmtSD .native (retypeSD exSrc) = some exOverwriteText := by
+  have hL : (retypeSD exSrc).lineC = [(0, "// src".toList)] := rfl
+  have hB : (retypeSD exSrc).blockC = [(1, "/* blk */".toList)] := rfl
+  have hI : (retypeSD exSrc).incl = [] := rfl
+  simp only [fmtSD, ex_raw_overwrite, hL, hB, hI, insertBlockComments, makeDefaultBlockComment, C12.nativeHeader_eq]
+  decide +kernel
+
+/-- the text `DictWriter.write(exSrc, target, mode='a')` writes, through `C16_append_sd_keeps` -/
+theorem ex_append_text :
+    writeText evalInt (exW (some 1)).fs exTarget ['a'] false (.sd exSrc) (some 1) = .ok (exAppendText, some 2) := by
+  have h := (C16_append_sd_keeps evalInt (exW (some 1)).fs exTarget .native false exSrc (some 1) (some 2) exRead
+    (by decide +kernel) (by decide +kernel) ex_read ex_read_nodup ex_src_nodup).1
+  rw [h]
+  simp only [Bool.false_eq_true, if_false, ex_fmt_append]
+
+/-- the theorem instantiated: the nested leaf `sub.x` of the file keeps its value 1 (the source says 7) -/
+theorem ex_append_keeps : C07.getD (appendSD exRead exSrc).data [.str "sub".toList, .str ['x']] = some (.leaf (.int 1)) :=
+  (C16_append_sd_keeps evalInt (exW (some 1)).fs exTarget .native false exSrc (some 1) (some 2) exRead
+    (by decide +kernel) (by decide +kernel) ex_read ex_read_nodup ex_src_nodup).2.1
+    [.str "sub".toList, .str ['x']] (.leaf (.int 1)) rfl (by decide +kernel) (by decide +kernel)
+    (fun k hk => by cases hk)
+
+/-- the hypothesis of `C16_append_sd_exact` holds on the example (no level with two equal comments, no include) -/
+theorem ex_fix : C12W.levelFix (preMerge exRead (retypeSD exSrc)) (preMerge exRead (retypeSD exSrc)).data ∧
+    C12W.subsFix (preMerge exRead (retypeSD exSrc)) (preMerge exRead (retypeSD exSrc)).data := by
+  have hd : (preMerge exRead (retypeSD exSrc)).data =
+      [phE "LINECOMMENT" 2, (.str ['a'], .leaf (.int 1)),
+       (.str "sub".toList, .dict [(.str ['x'], .leaf (.int 1)), (.str ['y'], .leaf (.int 2))]),
+       phE "LINECOMMENT" 0, (.str ['b'], .leaf (.int 2)), phE "BLOCKCOMMENT" 1] := by decide +kernel
+  have hL : (preMerge exRead (retypeSD exSrc)).lineC = [(2, "// old".toList), (0, "// src".toList)] := by decide +kernel
+  have hB : (preMerge exRead (retypeSD exSrc)).blockC = [(1, "/* blk */".toList)] := by decide +kernel
+  rw [hd]
+  refine ⟨⟨?_, ?_, ?_, ?_⟩, ?_⟩
+  · rw [hB]; decide +kernel
+  · decide +kernel
+  · rw [hL]; decide +kernel
+  · decide +kernel
+  · simp only [C12W.subsFix, C12W.allLevels, phE, and_true]
+    refine ⟨?_, ?_, ?_, ?_⟩
+    · rw [hB]; decide +kernel
+    · decide +kernel
+    · rw [hL]; decide +kernel
+    · decide +kernel
+
+theorem ex_exact : (appendSD exRead exSrc).lineC = Tbl.merge exRead.lineC exSrc.lineC :=
+  (C16_append_sd_exact exRead exSrc ex_fix.1 ex_fix.2).2.2.1
+
+/-- **colliding ids.**  The same append with a freshly reset counter (as after `SDict.load`, which resets it): the
+    file's line comment gets id 0, the id of the source's line comment.  The existing id wins — in the table and in the
+    data — so the source's `// src` is not written at all.  (Nothing of the *file* is lost: C16 holds; what is lost is a
+    comment of the source.) -/
+theorem ex_collision :
+    (match readFile evalInt (exW none).fs {} none exTarget with
+     | .ok (.ok sd _) => decide ((appendSD sd exSrc).lineC = [(0, "// old".toList)] ∧
+         (appendSD sd exSrc).blockC = [(1, "/* blk */".toList)] ∧
+         (keys (appendSD sd exSrc).data).filter C07.isPhKey = [.str (ph "LINECOMMENT" 0), .str (ph "BLOCKCOMMENT" 1)])
+     | _ => false) = true := by decide +kernel
+
+/-- overwrite: the text is that of the source alone, whatever the world holds -/
+theorem ex_overwrite (fs : FS) (c : Counter) :
+    writeText evalInt fs exTarget ['w'] false (.sd exSrc) c = .ok (exOverwriteText, c) := by
+  rw [C16_overwrite_sd evalInt fs exTarget .native ['w'] false exSrc c (by decide +kernel) (Or.inl (by decide))]
+  simp only [Bool.false_eq_true, if_false, ex_fmt_overwrite]
+
+/-- `C16_fold_api` on the write sequence of `C16fold` (`{a: 1}` written, `{b: "2", a: 9}` and `{c: {x: 1}}` appended),
+    in a world that holds another file -/
+theorem ex_fold_api :
+    ∃ t c₁ sd c₂,
+      (apiRun evalInt { fs := [(exOther, .native "q 1;".toList)] } (plainOps exTarget exWs)).2 = [.done, .done, .done] ∧
+      (apiRun evalInt { fs := [(exOther, .native "q 1;".toList)] } (plainOps exTarget exWs)).1.fs.get exTarget =
+        some (.native t) ∧
+      (apiRun evalInt { fs := [(exOther, .native "q 1;".toList)] } (plainOps exTarget exWs)).1.fs.get exOther =
+        some (.native "q 1;".toList) ∧
+      apiStep evalInt (apiRun evalInt { fs := [(exOther, .native "q 1;".toList)] } (plainOps exTarget exWs)).1
+        (.read exTarget {}) =
+        ({ (apiRun evalInt { fs := [(exOther, .native "q 1;".toList)] } (plainOps exTarget exWs)).1 with c := c₂ },
+          .data sd) ∧
+      (apiRun evalInt { fs := [(exOther, .native "q 1;".toList)] } (plainOps exTarget exWs)).1.c = c₁ ∧
+      C01.dropPhEntries sd.data = exFold := by
+  obtain ⟨t, c₁, sd, c₂, D, h1, h2, h3, h4, _, h6, h7, h8⟩ :=
+    C16_fold_api evalInt exTarget exWs { fs := [(exOther, .native "q 1;".toList)] } (by decide)
+      (by decide +kernel) (by decide +kernel) (Or.inl rfl) (by decide +kernel) (by decide +kernel) (by decide +kernel)
+  rw [exWs_spec] at h7
+  cases h7
+  exact ⟨t, c₁, sd, c₂, h1, h2, (h4 exOther (by decide)).trans (by rfl), h6, h3, h8⟩
+
+/-- `C16_dump_then_read` on `{a: 1, b: 2, c: {x: 1}}` in the same world -/
+theorem ex_dump_read :
+    ∃ c', apiRun evalInt { fs := [(exOther, .native "q 1;".toList)] } [.dump { data := exFold } exTarget, .read exTarget {}] =
+      ({ fs := [(exOther, .native "q 1;".toList), (exTarget, .native (nativeHeader ++ fmtPlain .native exFold))], c := c' },
+       [.done, .data (C12.hdrSD exFold)]) := by
+  obtain ⟨c', _, h, _⟩ := C16_dump_then_read evalInt { fs := [(exOther, .native "q 1;".toList)] } exTarget exFold
+    (by decide +kernel) (by decide +kernel) (by decide +kernel) (Or.inl rfl) (by decide +kernel) (by decide +kernel)
+    (by decide +kernel)
+  have hn : normEs exFold = exFold := by decide +kernel
+  rw [hn] at h
+  exact ⟨c', h⟩
+
 end C16sd
 end DictIO
